@@ -25,6 +25,8 @@ func checkC16(c *Ctx) {
 
 	c.Rule("C16.7", "Track.Add / Close store the delta they are given (no clamping or narrowing: the conversion re-deltas from absolute ticks, so a gap on a target track can exceed any single source delta) (= C01.7)", 5)
 	c.include(checkC01, map[string]string{"C01.7": "C16.7"})
+	c.Rule("C16.8", "SMF.Add stores the track it is given, whole: a track of any length (symbolic, up to 2^40 events) is appended to Tracks as the very same slice — same storage, same length — with and without a logger set (the conversion hands every result track to Add; a logger-only shortcut that re-slices the parameter would cut long tracks)", 2)
+	smfAddCells(c, "C16.8")
 
 	smfT := p.namedType("smf", "SMF")
 	if smfT == nil {
@@ -68,6 +70,7 @@ func checkC16(c *Ctx) {
 		}},
 		{"source track left open (no end-of-track)", []srcEv{meta(0xFF, 0x03, 0x00), ch(0x92), ch(0x82)}},
 		{"no channel messages", []srcEv{meta(0xFF, 0x01, 0x00), eot}},
+		{"only channel messages, source track left open: the first track of the result holds nothing but its end-of-track", []srcEv{ch(0x93), ch(0x83)}},
 	}
 	okAll, whyAll := true, ""
 	okSort, whySort := true, ""
@@ -275,4 +278,60 @@ func runningUnsignedSum(fn *ssa.Function) bool {
 		}
 	}
 	return false
+}
+
+// smfAddCells: (*SMF).Add on a track of symbolic length, logger nil / non-nil.
+func smfAddCells(c *Ctx, rule string) {
+	p := c.P
+	smfT := p.namedType("smf", "SMF")
+	evT := p.namedType("smf", "Event")
+	var add *ssa.Function
+	if smfT != nil {
+		add = p.MethodOf(types.NewPointer(smfT), "Add")
+	}
+	if smfT == nil || evT == nil || add == nil || len(add.Params) != 2 {
+		c.Unk(rule, "SMF.Add", "-", "not resolved")
+		return
+	}
+	c.Fn(FuncName(add))
+	for _, withLogger := range []bool{false, true} {
+		key := "SMF.Add keeps the whole track (logger set: " + fmt.Sprint(withLogger) + ")"
+		ex := NewExec(p)
+		ex.WidenAtEntry = true
+		st := ex.NewState()
+		sp := ex.newZeroObject(st, smfT)
+		if withLogger && !ex.setField(st, sp, "Logger", &IfaceV{Unk: true, NonNil: true}) {
+			c.Unk(rule, key, "-", "SMF.Logger not found")
+			continue
+		}
+		tr := ex.unknownSlice(st, evT, "track", 0)
+		tr.MaybeNil = false
+		outs := ex.Call(st, add, []Val{sp, tr}, nil)
+		if ex.Budget || len(outs) == 0 {
+			c.Unk(rule, key, p.Pos(add.Pos()), "abstract interpretation did not complete")
+			continue
+		}
+		ok, why := true, ""
+		for u := range ex.Unsupported {
+			ok, why = false, "unmodelled construct: "+u
+		}
+		for _, o := range outs {
+			if o.Panic {
+				ok, why = false, "may panic: "+o.Msg
+				continue
+			}
+			tv, okT := ex.getField(o.St, sp, "Tracks")
+			tsl, _ := tv.(*SliceV)
+			els, okE := ex.sliceElems(o.St, tsl)
+			if !okT || !okE || len(els) != 1 {
+				ok, why = false, fmt.Sprintf("after Add the file value holds %d tracks", len(els))
+				continue
+			}
+			got, _ := els[0].(*SliceV)
+			if got == nil || got.Obj != tr.Obj || !o.St.sameInt(got.Off, tr.Off) || !o.St.sameInt(got.Len, tr.Len) {
+				ok, why = false, "the stored track is not the slice that was handed in (" + valString(els[0]) + " instead of " + valString(tr) + "): events are lost or copied"
+			}
+		}
+		c.Check(ok, rule, key, p.Pos(add.Pos()), "track of symbolic length: stored as the same slice, same length", why)
+	}
 }
